@@ -65,23 +65,38 @@ MANIFEST = dict(
          'c13_property: all parts in one statement under the single hypothesis c13_hyps (a boolean on the fourteen generated objects, '
          'discharged for today\'s source on every run); c13_generated_machine_step / _history: the state machine assembled from the generated '
          'objects (write from the placement table, write_dirfile / reopen as the translated programs) answers as the hand-written machine '
-         'whenever it answers, so the history theorem holds for it; the machine correspondence runs plain histories through it.',
+         'whenever it answers, so the history theorem holds for it; the machine correspondence runs plain histories through it. Round 5: '
+         'FileInfo.write is also executed in its rejection scenarios (read-only archive / index out of range / both, for every combination of '
+         'the deciding facts): which validation raised and which stores had been executed by then is a generated rejection table; '
+         'write_guarded_t runs the method, validations included, from the placement and rejection tables (a rejected call keeps exactly the '
+         'stores the table lists), and for every table accepted by rej_table_ok (every validation that can reject raises before the first '
+         'store, the mode before the index, a singular VPK ignores the index) it is the OWrite case of the state machine on all inputs '
+         '(c13_guarded_write_is_model, c13_write_step_is_generated_tables, c13_rejected_write_stores_nothing); the table with the index '
+         'validated after the checksum is stored is refuted for every checksum function, archive, entry and data (the entry keeps the new '
+         'checksum on the old bytes, verify() is false, a retry with a valid index stores nothing: c13_late_index_check_refuted). The split '
+         'statement may be os.path.splitext (SplitExt, meaning = posixpath.splitext), which is not accepted and refuted by the dot-file witness '
+         '(c13_name_forms_splitext_refuted); a block reader whose inner loop rewinds relative to the first block (RBlockLoopRel) has a meaning and is '
+         'refuted at 128 characters (c13_nullstr_block_rel_refuted). filenames / fileinfos executed with their extension / folder arguments given or defaulted give '
+         'walk descriptions whose meaning list_walk is, for dicts without duplicate keys, exactly the entries of the default walk with that '
+         'extension whose folder name starts with the argument, in order (c13_listing_with_arguments_is_filter); extract_all is the full walk '
+         'writing each entry under its listed name with the bytes of read() (c13_extract_all_writes_every_file). c13_property_r5 collects the '
+         'hypotheses of c13_property and these three generated objects in one boolean c13_hyps_r5.',
     note='The model SM/Vpk.v (step/run), the codec Fmt/VpkDir.v/VpkDirV2.v, Fmt/VpkName.v and the string primitives of Fmt/VpkArchName.v are '
          'hand-written and tied to srctools.vpk by differential runs on every run (not by proof): histories on real temp directories compared '
          'byte-exactly, decode of written/damaged/version-2 files, the archive files really opened by the three get_arch_filename sites, name '
          'forms, NUL-terminated streams, new_file/del sequences on the nested dicts. Trusted: Coq kernel + vm_compute (incl. Uint63 for the test '
-         'CRC-32), translate/c13_vpk.py, c13_archname.py, c13_nullstr.py, c13_nested.py, c13_api.py, c13_place.py (symbolic executors), '
+         'CRC-32), translate/c13_vpk.py, c13_archname.py, c13_nullstr.py, c13_nested.py, c13_api.py, c13_place.py, c13_names.py, c13_dirprog.py (symbolic executors), '
          'zlib.crc32 (a Section variable in the theorems; its chaining crc32(b, crc32(a)) = crc32(a+b) is assumed), posixpath.normpath (a '
          'parameter of the name theorems), OS append/seek semantics (archives modelled as append-only byte lists; the "ab" open mode and '
          'seek(0, SEEK_END) are a translated site). Premises that are real limits of the code: a write whose CRC-32 equals the stored one is '
-         'skipped (collision premise); fields >= 4 GiB make write_dirfile raise. Only searched (not modelled): add_folder, extract_all, the '
-         'non-default arguments of filenames/fileinfos/folders, FileInfo.size, the root= argument, script_write. Outside: writing version 2, '
-         'VPKFileSystem, stale FileInfo handles, other processes, archive files present before the history, a load_dirfile() on the same object '
-         'that fails half-way. File names whose last component ends in "." are listed without the dot (known finding name-trailing-dot).',
+         'skipped (collision premise); fields >= 4 GiB make write_dirfile raise. Only searched (not modelled): add_folder, the disk side of '
+         'extract_all (directories created, paths joined), folders(ext=), FileInfo.size, the root= argument, script_write. Outside: writing '
+         'version 2, VPKFileSystem, stale FileInfo handles, other processes, archive files present before the history, a load_dirfile() on the '
+         'same object that fails half-way (it leaves the entries read so far and an empty footer_data; the model gives None). File names whose last component ends in "." are listed without the dot (known finding name-trailing-dot).',
 )
 
 IMPORTS = ['Coq.Lists.List', 'Coq.NArith.NArith', 'SV.Fmt.VpkDir', 'SV.SM.Vpk', 'SV.Fmt.VpkArchName', 'SV.SM.VpkCorr', 'SV.Gen.VpkPlace_gen',
-           'SV.Gen.VpkArchName_gen', 'SV.Fmt.VpkNullStr', 'SV.Gen.VpkNullStr_gen', 'SV.SM.VpkNested', 'SV.Gen.VpkNested_gen', 'SV.SM.VpkApi', 'SV.Gen.VpkApi_gen', 'SV.SM.VpkNestedMap', 'SV.SM.VpkPlace', 'SV.Fmt.VpkNameJoin', 'SV.Gen.VpkNames_gen', 'SV.Fmt.VpkDirProg', 'SV.Fmt.VpkDirRead', 'SV.Gen.VpkDirProg_gen', 'SV.SM.VpkPlaceTable', 'SV.SM.VpkGenMachine']
+           'SV.Gen.VpkArchName_gen', 'SV.Fmt.VpkNullStr', 'SV.Gen.VpkNullStr_gen', 'SV.SM.VpkNested', 'SV.Gen.VpkNested_gen', 'SV.SM.VpkApi', 'SV.Gen.VpkApi_gen', 'SV.SM.VpkNestedMap', 'SV.SM.VpkPlace', 'SV.Fmt.VpkNameJoin', 'SV.Gen.VpkNames_gen', 'SV.Fmt.VpkDirProg', 'SV.Fmt.VpkDirRead', 'SV.Gen.VpkDirProg_gen', 'SV.SM.VpkPlaceTable', 'SV.SM.VpkGenMachine', 'SV.SM.VpkWriteOrder', 'SV.SM.VpkListing']
 PRE = 'Import ListNotations. Open Scope N_scope.\n'
 
 R_OK, R_RO, R_EXISTS, R_MISSING, R_BADNAME, R_BADIDX, R_BADDIR, R_EXC = 0, 1, 2, 3, 4, 5, 6, 9
@@ -827,6 +842,59 @@ FOLDER_TREES = [
 FOLDER_PREFIXES = ['', 'pre', 'pre/fix', 'pre\\fix', 'pre/']
 
 
+def failed_reload_stream(ck: Ck) -> None:
+    """State carried between calls on an error path: the saved directory file is damaged from outside, `load_dirfile()` on the open
+    object raises half-way (it leaves the entries read so far), the file is restored, `load_dirfile()` is called again: the object must
+    hold exactly what was saved (the reset at the start of load_dirfile).  Only searched; the model gives None for the failed load."""
+    rng = random.Random(ck.seed * 31 + 5)
+    n = bud(ck, 6, 12, 40)
+    done = tries = 0
+    while done < n and tries < n * 6:
+        tries += 1
+        case = gen_case(rng, small=True, api=False)
+        if not case['ops'] or case['ops'][-1][0] != 'reopen' or case['ops'][-1][1] == 'w':
+            continue
+        res = run_impl(case, want_files=True)
+        try:
+            vpk, path, disk = res['vpk'], res['path'], res['disk']
+            want = observe(vpk)
+            if not want or len(disk) < 30:
+                continue
+            want_foot = dg(vpk.footer_data)
+            ck.count('oracle_failed_reload_cases')
+            cut = 12 + rng.randrange(1, max(2, (len(disk) - 12) // 2))
+            failed = False
+            with open(path, 'wb') as f:
+                f.write(disk[:cut])
+            try:
+                with impl_deadline(60):
+                    vpk.load_dirfile()
+            except ImplTimeout:
+                raise
+            except Exception:      # noqa
+                failed = True
+            partial = len(vpk)
+            with open(path, 'wb') as f:
+                f.write(disk)
+            ck.hist('failed_reload', f"{'raised' if failed else 'loaded-truncated'}/partial={'0' if partial == 0 else 'some'}")
+            try:
+                vpk.load_dirfile()
+                got, got_foot = observe(vpk), dg(vpk.footer_data)
+            except Exception as e:      # noqa
+                ck.violation('reload-after-failed-load', f'load_dirfile() on the restored file raised {type(e).__name__}: {e}'[:300],
+                             {'case': case, 'how': f'checks.c13.failed_reload_stream: run the case, truncate the directory file to {cut} bytes, load_dirfile() (raises), restore, load_dirfile()'})
+                continue
+            if got != want or got_foot != want_foot:
+                ck.violation('reload-after-failed-load', f'after a load_dirfile() that failed on a damaged file and a second one on the restored file: missing '
+                             f'{sorted(set(want) - set(got))[:3]} extra {sorted(set(got) - set(want))[:3]} differing {[k for k in want if k in got and got[k] != want[k]][:3]}',
+                             {'case': case, 'how': f'checks.c13.failed_reload_stream: truncate the directory file to {cut} bytes, load_dirfile() (raises), restore, load_dirfile()'})
+            elif failed:
+                ck.seen(('failed-reload', repr(case)))
+            done += 1
+        finally:
+            shutil.rmtree(res['dir'], ignore_errors=True)
+
+
 def folder_stream(ck: Ck) -> None:
     """add_folder (every file below a directory is added under <prefix>/<relative folder>/<name>) and extract_all, against files on
     disk: only searched, not modelled."""
@@ -1035,7 +1103,7 @@ def c_dg(d) -> str:
 def corr_machine(ck: Ck) -> None:
     """SM/Vpk.v run on the same histories as the implementation: per-op code and summary, final per-file digests,
     byte-exact directory file and archives (length + CRC32)."""
-    n_small = bud(ck, 100, 600, 2500)
+    n_small = bud(ck, 80, 600, 2500)
     n_big = bud(ck, 2, 8, 40)
     # quick tier: every tree-string position at 256 and 1000 characters; escalated / thorough: also 255 and 257
     cases = [c for c in CORPUS] + (list(LONG_CORPUS) if ck.thorough or ck.tie_broken else LONG_CORPUS[1::2])
@@ -1579,7 +1647,10 @@ def run(ck: Ck) -> None:
                'the file each of the three get_arch_filename sites really opens; non-trivial = a directory VPK. NUL-terminated streams: '
                'sections of strings incl. lengths around 255/256 and damaged streams. nested dicts: 1..8 files over 3 extensions x 4 folders x 3 '
                'stems then 1..6 deletes; sequences of 2..14 new_file/del from an empty archive with 4 membership probes. folders: add_folder over 3 '
-               'directory trees x 5 prefixes, extract_all; add_file/new_file with root= (6 cases), script_write on the 3 trees.')
+               'directory trees x 5 prefixes, extract_all; add_file/new_file with root= (6 cases), script_write on the 3 trees. Rejected calls (read-only '
+               'archive, index out of range, existing / missing / unrepresentable name) are part of the histories: the caller carries on after the error. '
+               'failed reload: a saved archive whose directory file is truncated from outside, load_dirfile() raising half-way, the file restored, '
+               'load_dirfile() again; non-trivial = the first load raised.')
     ck.trusted.append('hand-written models Fmt/VpkDir.v, Fmt/VpkDirV2.v, SM/Vpk.v, Fmt/VpkName.v, string primitives of Fmt/VpkArchName.v (tied by '
                       'differential correspondence on every run); zlib.crc32 incl. its chaining property; posixpath.normpath; '
                       'translate/c13_archname.py, c13_nullstr.py, c13_nested.py, c13_api.py, c13_names.py, c13_dirprog.py; hand-written SM/VpkApi.v, SM/VpkNested.v, '
@@ -1590,6 +1661,7 @@ def run(ck: Ck) -> None:
         'fresh directory: no numbered archive files exist before the history starts; one process at a time; numbered archives are append-only files (open mode "ab", offset = seek(0, SEEK_END): translated site archive_appended_at_end_and_read_at_offset)',
         'the state machine SM/Vpk.v is the implementation: tied by correspondence on sampled histories and by the translated sites, not by proof',
     ]
+    _T0 = __import__('time').time()
     ok_t = ck.translate('VpkPlace_gen', c13_vpk.translate)
     ok_t = ck.translate('VpkArchName_gen', c13_archname.translate) and ok_t
     ok_t = ck.translate('VpkNullStr_gen', c13_nullstr.translate) and ok_t
@@ -1598,8 +1670,12 @@ def run(ck: Ck) -> None:
     ok_t = ck.translate('VpkNames_gen', c13_names.translate) and ok_t
     ok_t = ck.translate('VpkDirProg_gen', c13_dirprog.translate) and ok_t
     built = ok_t and ck.build(['Props/C13.vo', 'SM/VpkCorr.vo', 'Gen/VpkPlace_gen.vo', 'Gen/VpkArchName_gen.vo', 'Gen/VpkNullStr_gen.vo', 'Gen/VpkNested_gen.vo', 'Gen/VpkApi_gen.vo', 'Gen/VpkNames_gen.vo', 'Gen/VpkDirProg_gen.vo'])
+    if os.environ.get('C13_TIMING'):
+        print(f'  [timing] translate+build: {__import__("time").time() - _T0:.1f}s'); _T0 = __import__('time').time()
     if built:
         ck.theorems('Props/C13.v')
+        if os.environ.get('C13_TIMING'):
+            print(f'  [timing] theorems: {__import__("time").time() - _T0:.1f}s'); _T0 = __import__('time').time()
         ck.instance_obligations(IMPORTS + ['SV.Fmt.VpkNameSplit', 'SV.SM.VpkProperty', 'SV.Props.C13'], {
             'format_constants_in_range': 'dcfg_ok g_dcfg',
             'reader_and_writer_use_the_same_dir_sentinel': 'N.eqb g_dir_index_read g_dir_index_write',
@@ -1616,6 +1692,10 @@ def run(ck: Ck) -> None:
             'write_with_unchanged_checksum_has_no_effect': 'g_same_crc_skips',
             'read_and_verify_take_the_bytes_from_where_write_put_them': 'read_table_ok g_read_table',
             'archive_index_validated': 'g_chk_idx',
+            # FileInfo.write executed in the rejection scenarios (read-only / index out of range / both): premise of c13_guarded_write_is_model,
+            # c13_rejected_write_stores_nothing, c13_write_step_is_generated_tables
+            'write_validations_all_precede_the_first_store': 'rej_table_ok g_rej_table',
+            'add_file_validates_the_index_before_the_entry_is_created': 'g_add_file_checks_index_first',
             'unrepresentable_names_rejected': 'g_chk_name',
             'instance_satisfies_theorem_premises': 'andb (vcfg_ok (g_vcfg true (Some 1024%N))) (vcfg_ok (g_vcfg false None))',
             'ext_split_is_at_the_last_dot': 'split_kind_ok g_ext_split',
@@ -1641,6 +1721,9 @@ def run(ck: Ck) -> None:
             'c13_property_hypotheses_hold_for_todays_source':
                 'andb (c13_hyps g_exit_table (g_vcfg true (Some 1024%N)) g_place_table g_read_table g_ins_ext g_ins_dir g_del_prog g_ncodec g_wprog g_rprog g_ext_split g_parts g_join_table g_ncfg) '
                 '(c13_hyps g_exit_table (g_vcfg false None) g_place_table g_read_table g_ins_ext g_ins_dir g_del_prog g_ncodec g_wprog g_rprog g_ext_split g_parts g_join_table g_ncfg)',
+            'c13_property_r5_hypotheses_hold_for_todays_source':
+                'andb (c13_hyps_r5 g_exit_table (g_vcfg true (Some 1024%N)) g_place_table g_read_table g_ins_ext g_ins_dir g_del_prog g_ncodec g_wprog g_rprog g_ext_split g_parts g_join_table g_ncfg g_rej_table g_walks_filenames g_walks_fileinfos) '
+                '(c13_hyps_r5 g_exit_table (g_vcfg false None) g_place_table g_read_table g_ins_ext g_ins_dir g_del_prog g_ncodec g_wprog g_rprog g_ext_split g_parts g_join_table g_ncfg g_rej_table g_walks_filenames g_walks_fileinfos)',
             'write_dirfile_program_is_the_directory_encoder': 'wprog_ok g_wprog',
             'write_dirfile_refuses_version_2_before_opening_the_file': 'g_write_refuses_v2',
             'write_dirfile_loops_ext_folder_file_sorted': 'andb (w_nest_ok g_wprog) (w_sorted g_wprog)',
@@ -1692,10 +1775,17 @@ def run(ck: Ck) -> None:
             'listing_len_counts_every_file': 'g_walk_len',
             'listing_filenames_default_walks_every_file': 'g_walk_filenames',
             'listing_fileinfos_default_walks_every_file': 'g_walk_fileinfos',
+            # the same two methods executed with their arguments given: premise of c13_listing_tables_list_matching
+            'listing_filenames_with_arguments_selects_extension_and_folder_prefix': 'walks_ok g_walks_filenames',
+            'listing_fileinfos_with_arguments_selects_extension_and_folder_prefix': 'walks_ok g_walks_fileinfos',
+            # premise of c13_extract_all_writes_every_file
+            'extract_all_writes_every_file_under_its_listed_name': 'walk_ok false false g_extract_walk',
             'tree_strings_all_go_through_the_codec': 'andb g_tree_strings_read_by_iter_nullstr g_tree_strings_written_by_write_nullstring',
         }, name='vpkinst')
         import time as _t
         t0 = _t.time()
+        if os.environ.get('C13_TIMING'):
+            print(f'  [timing] instance obligations: {t0 - _T0:.1f}s')
         for fn in (corr_archnames, corr_nullstr, corr_nested, corr_machine, corr_decode, corr_names):
             staged(ck, fn)
             if os.environ.get('C13_TIMING'):
@@ -1703,6 +1793,7 @@ def run(ck: Ck) -> None:
     t0 = __import__('time').time()
     staged(ck, search)
     staged(ck, folder_stream)
+    staged(ck, failed_reload_stream)
     staged(ck, root_and_script_stream)
     if os.environ.get('C13_TIMING'):
         print(f'  [timing] search: {__import__("time").time() - t0:.1f}s')
